@@ -18,8 +18,10 @@ def plan(*parts):
 
 
 PLANS = {
+    "C01": plan(shards(20, 240)),
     "C02": plan(shards(20, 240)),
     "C05": plan(shards(20, 240)),
+    "C08": plan(shards(20, 240)),
     "C13": plan(shards(20, 240)),
     "C07": plan(shards(20, 240)),
     "C15": plan(shards(20, 240)),
